@@ -32,10 +32,10 @@ def run_rules(prop, program, tier):
     return mod, ctx
 
 
-def analyse(prop, sources, tier="quick"):
+def analyse(prop, sources, tier="quick", program=None):
     """-> (status, findings, ctx, message) ; status in ok / error / inconclusive"""
     try:
-        p = Program(sources)
+        p = program if program is not None else Program(sources)
         mod, ctx = run_rules(prop, p, tier)
         if not ctx.findings:   # a violation found by any rule takes priority over an undecided / vacuous rule
             if ctx.rule_errors:
@@ -79,7 +79,7 @@ def main(argv=None):
         print(f"ANALYSIS-ERROR property={prop} {e}")
         _error_evidence(prop, a, seed, t0, mod, "error", str(e))
         return 2
-    status, findings, ctx, msg = analyse(prop, sources, a.tier)
+    status, findings, ctx, msg = analyse(prop, sources, a.tier, program)
     if status != "ok":
         tag = "ANALYSIS-INCONCLUSIVE" if status == "inconclusive" else "ANALYSIS-ERROR"
         print(f"{tag} property={prop} {msg}")
